@@ -192,6 +192,34 @@ def native_run(cases, tmpdir, timeout=900):
     return outs
 
 
+def native_fptable(tmpdir, timeout=600):
+    """float64 reference classes (C15): run TestVerifFPTable natively"""
+    hdir = os.path.join(ROOT, 'harness')
+    repl = {}
+    for fn in os.listdir(hdir):
+        if fn.endswith('.go'):
+            repl[os.path.join(REPO, fn)] = os.path.join(hdir, fn)
+    repl[os.path.join(REPO, 'zz_verif_registry_test.go')] = gen_registry(tmpdir)
+    ov = os.path.join(tmpdir, 'overlay_fp.json')
+    with open(ov, 'w') as f:
+        json.dump({'Replace': repl}, f)
+    env = dict(GOENV, VERIF_FPTABLE='1')
+    cmd = ['go', 'test', '-v', '-vet=off', '-count=1', '-tags=verif', '-overlay', ov, '-run', '^TestVerifFPTable$', '.']
+    p = subprocess.run(cmd, cwd=REPO, env=env, capture_output=True, text=True, timeout=timeout)
+    tab = {'bin': {}, 'un': {}}
+    for line in p.stdout.split('\n'):
+        if line.startswith('VERIF-FP bin '):
+            _, _, op, i, j, c = line.split()
+            tab['bin'][(int(op), int(i), int(j))] = int(c)
+        elif line.startswith('VERIF-FP un '):
+            _, _, k, i, c, v = line.split()
+            tab['un'][(int(k), int(i))] = (int(c), int(v))
+    if not tab['bin']:
+        sys.stderr.write('float table run failed:\n' + p.stdout[-2000:] + p.stderr[-2000:])
+        return None
+    return tab
+
+
 # ---------------------------------------------------------------- known findings
 def load_known():
     p = os.path.join(ROOT, 'known_findings.json')
@@ -254,6 +282,12 @@ def _main(prop, tier, seed, nproc, spec, tmpdir, t_start):
     base_opts = {'timeout': spec.get('timeout', {}).get(tier, 60 if tier == 'quick' else 300),
                  'job_budget': spec.get('job_budget', {}).get(tier, 300 if tier == 'quick' else 3000),
                  'stop_on_violation': True}
+    if spec.get('needs_fptable'):
+        import props as _props
+        _props.FPTABLE = native_fptable(tmpdir)
+        if _props.FPTABLE is None:
+            print('ERROR: native float64 reference table could not be produced')
+            return 0
     jobs = []
     for j in spec['jobs'](tier, seed):
         harness, args = j[0], j[1]
